@@ -185,7 +185,12 @@ SrcReq(src, ct, hk) ==
   IN Mk(RpcX("POST", "string", hs, TRUE), hv, url, bd, rv, h, hk)
 \* URL-binding violations of renamed query parameters (a malformed value, a missing required one)
 RenamedUrlReq(qc, rqc, ct) == LET r == SrcReq("url", ct, NoHook) IN [r EXCEPT !.rpc = Renamed(r.rpc), !.url = Url("good", qc, rqc)]
-C10Requests == { SrcReq(s, ct, hk) : s \in Sources, ct \in {"json", "proto", "octet"}, hk \in HooksN }
+\* the TS server (JSON only; handlers return a value or throw an Error / a ValidationError; the validateRequest
+\* option reports rule violations; the onError option returns a whole Response: a hook that "writes the body")
+TsSources == {"header", "rule1", "rule_two", "plain", "validationError", "ok"}
+TsHooks == {h \in HooksN : h.on => (h.body /\ ~h.msg)}
+C10TsRequests == { [SrcReq(s, "json", hk) EXCEPT !.server = "ts"] : s \in TsSources, hk \in TsHooks }
+C10Requests == { SrcReq(s, ct, hk) : s \in Sources, ct \in {"json", "proto", "octet"}, hk \in HooksN } \cup C10TsRequests
                 \cup { RenamedUrlReq(qc, rqc, ct) : qc \in {"good", "malformed", "oor"}, rqc \in {"good", "malformed", "missing_required"}, ct \in {"json", "proto"} }
 
 (***************************************************************************)
